@@ -32,7 +32,7 @@ LEVEL = "model_checking"
 PKG = "./brontide/"
 HARNESS = ["brontide/c11_test.go"]
 MC_WORKERS = int(os.environ.get("C11_MC_WORKERS", "4"))
-REAL = {"ROT": 1000, "LEN": 2, "MAC": 16, "MaxSize": 65535}
+REAL = {"ROT": 1000, "LEN": 2, "MAC": 16, "MaxSize": 65535, "ActLen": 50, "Act3Len": 66}
 ADV = ("Corrupt", "Truncate", "Drop", "Swap", "Replay", "ReplayOld", "Reflect", "AlterAct", "OldActOne")
 
 
@@ -110,6 +110,8 @@ def trace_stats(recs):
             st["adv"] += 1
         elif a == "Flush" and r["err"] == "timeout":
             st["partial_flush"] += 1
+        elif a == "FragmentAct":
+            st["frag_acts"] = st.get("frag_acts", 0) + 1
         elif a.startswith("RecvAct") and r["err"] != "":
             st["hs_fail"] += 1
         elif a == "RecvActThree":
@@ -253,8 +255,21 @@ def write_scenarios(d):
         rows = []
         for e in hs + [x + ("",) for x in evs]:
             a, m, dd, size, v, k, o1, kind = e
-            rows.append(dict(a=a, m=m, d=dd, kind=kind, size=size, v=v, k=k, o1=o1, o2=0, o3=0))
+            rows.append(dict(a=a, m=m, d=dd, kind=kind, size=size, v=v, k=k, o1=o1, o2=0, o3=0, cuts=[]))
         core.write_ndjson(os.path.join(d, "b_%d.ndjson" % (900000 + i)), rows)
+    ex = [("Write", "A", "ab", 17, -1, 0, 0), ("Flush", "A", "ab", 0, 0, 1000, 0), ("Read", "B", "ab", 0, 0, 0, 0),
+          ("Write", "B", "ba", 2, 7, 0, 0), ("Flush", "B", "ba", 0, 0, 1000, 0), ("Read", "A", "ba", 0, 0, 0, 0)]
+    for j, cuts in enumerate(([1, 65], [65, 1], [50, 16], [34, 16, 16], [33, 33], [2, 62, 2])):
+        rows = []
+        for (a, m) in (("GenActOne", "A"), ("RecvActOne", "B"), ("GenActTwo", "B"), ("RecvActTwo", "A"),
+                       ("GenActThree", "A"), ("RecvActThree", "B")):
+            rows.append(dict(a=a, m=m, d="", kind="real" if a == "GenActOne" else "", size=0, v=0, k=0, o1=0, o2=0, o3=0, cuts=[]))
+            if a.startswith("GenAct"):
+                c = cuts if a == "GenActThree" else [cuts[0] % 49 + 1, 50 - (cuts[0] % 49 + 1)]
+                rows.append(dict(a="FragmentAct", m="", d="", kind="", size=0, v=0, k=0, o1=0, o2=0, o3=0, cuts=c))
+        for (a, m, dd, size, v, k, o1) in ex:
+            rows.append(dict(a=a, m=m, d=dd, kind="", size=size, v=v, k=k, o1=o1, o2=0, o3=0, cuts=[]))
+        core.write_ndjson(os.path.join(d, "b_%d.ndjson" % (920000 + j)), rows)
     # every way of tampering with the handshake, each act x each kind, a replayed act one, the wrong static key
     order = [("GenActOne", "A"), ("RecvActOne", "B"), ("GenActTwo", "B"), ("RecvActTwo", "A"), ("GenActThree", "A"),
              ("RecvActThree", "B")]
@@ -264,10 +279,14 @@ def write_scenarios(d):
         rows = []
         for i, (a, m) in enumerate(order):
             rows.append(dict(a=a, m=m, d="", kind=("wrong" if kind == "wrong" else "real") if a == "GenActOne" else "",
-                             size=0, v=0, k=0, o1=0, o2=0, o3=0))
+                             size=0, v=0, k=0, o1=0, o2=0, o3=0, cuts=[]))
+            if a.startswith("GenAct"):   # every act arrives in fragments (real Dial / Listener)
+                n = 66 if a == "GenActThree" else 50
+                c = [[1, n - 1], [n - 1, 1], [34, n - 34], [1, 33, n - 34], [n // 2, n - n // 2]][(j + i) % 5]
+                rows.append(dict(a="FragmentAct", m="", d="", kind="", size=0, v=0, k=0, o1=0, o2=0, o3=0, cuts=c))
             if i == 2 * (k - 1) and k > 0:
                 rows.append(dict(a="OldActOne" if kind == "old" else "AlterAct", m="", d="",
-                                 kind="" if kind == "old" else kind, size=0, v=0, k=0, o1=0, o2=0, o3=0))
+                                 kind="" if kind == "old" else kind, size=0, v=0, k=0, o1=0, o2=0, o3=0, cuts=[]))
             if (i == 2 * k - 1 and kind != "old") or (kind == "old" and i == 3) or (kind == "wrong" and i == 1):
                 break
         core.write_ndjson(os.path.join(d, "b_%d.ndjson" % (910000 + j)), rows)
@@ -322,7 +341,7 @@ def run(ck):
     ev = ck.cov.get("events", {})
     if ok and ok2 and ok3:
         # vacuity: the run must have exercised what the property talks about
-        need = dict(delivered=1000, read_fail=20, adv=20, partial_flush=200, rot=4, hs_fail=3, big=3)
+        need = dict(delivered=1000, read_fail=20, adv=20, partial_flush=200, rot=4, hs_fail=3, big=3, frag_acts=30)
         low = {k: ev.get(k, 0) for k, n in need.items() if ev.get(k, 0) < n}
         if low:
             raise Inconclusive("run too thin to support the verdict: %s (needed %s)" % (low, need))
